@@ -1,13 +1,13 @@
 SPECIFICATION MCSpec
 CONSTANTS
   CapExtension = TRUE
-  Sizes = {4, 5, 8, 13, 24, 40}
-  Neigens = {1, 2, 3, 5, 10}
+  Sizes = {5, 8, 13, 24}
+  Neigens = {1, 2, 3, 6}
   UpdSet = {"min", "safe", "max"}
   CorrSet = {"DPR"}
   TolSet = {"normal"}
   MssKinds = {"default", "below", "tight", "mid", "bse", "huge"}
-  IterMaxs = {1, 2, 5}
+  IterMaxs = {1, 3}
   SigKinds = {"default", "wide"}
   ModeSet = {"SYMM", "HAM"}
   Explore = TRUE
